@@ -318,10 +318,10 @@ func (k Keeper) RewardBallotWinners(ctx sdk.Context, validatorClaimMap map[strin
 			totalContribution = totalContribution.Add(probonoContribution...)
 
 			finalReward := sdk.NewDecCoinsFromCoins(rewardCoins...).Sub(probonoContribution)
-			finalRewardCoins, _ := finalReward.TruncateDecimal()
 
 			k.DistributionKeeper.AllocateTokensToValidator(ctx, receiverVal, finalReward)
-			distributedReward = distributedReward.Add(finalRewardCoins...)
+			// finalReward + probonoContribution = rewardCoins: move exactly what is credited
+			distributedReward = distributedReward.Add(rewardCoins...)
 		} else {
 			logger.Debug(fmt.Sprintf("no reward %s(%s)",
 				receiverVal.GetMoniker(),
@@ -335,10 +335,8 @@ func (k Keeper) RewardBallotWinners(ctx sdk.Context, validatorClaimMap map[strin
 	feePool.CommunityPool = feePool.CommunityPool.Add(totalContribution...)
 	k.DistributionKeeper.SetFeePool(ctx, feePool)
 
-	totalContributionCoins, _ := totalContribution.TruncateDecimal()
-
 	// Move both distributed reward and contribution reward to distribution module
-	if err := k.BankKeeper.SendCoinsFromModuleToModule(ctx, types.ModuleName, k.distributionName, distributedReward.Add(totalContributionCoins...)); err != nil {
+	if err := k.BankKeeper.SendCoinsFromModuleToModule(ctx, types.ModuleName, k.distributionName, distributedReward); err != nil {
 		return fmt.Errorf("failed to move distributed reward to distribution module: %w", err)
 	}
 
